@@ -654,6 +654,22 @@ class OpsMixin:
         """python list of SVs for a concretely-shaped iterable, else Unsupported"""
         v = self.force(v)
         if isinstance(v, VTuple):
+            if v.items and isinstance(v.items[0], VStr) and z3.is_string_value(E.simp(v.items[0].t)) and E.simp(v.items[0].t).as_string().startswith("#"):
+                # an iteration VIEW (range / reversed / enumerate / dict items ...) is not a tuple of its parts
+                tag = E.simp(v.items[0].t).as_string()
+                if tag == "#range" and all(isinstance(a, VInt) and z3.is_int_value(E.simp(a.t)) for a in v.items[1:]):
+                    return [VInt(i) for i in range(*[E.simp(a.t).as_long() for a in v.items[1:]])]
+                if tag in ("#reversed",):
+                    return list(reversed(self.iterate_concrete(v.items[1])))
+                if tag == "#enumerate":
+                    st = E.simp(v.items[2].t).as_long() if z3.is_int_value(E.simp(v.items[2].t)) else None
+                    if st is not None:
+                        return [VTuple([VInt(i + st), x]) for i, x in enumerate(self.iterate_concrete(v.items[1]))]
+                if tag in ("#dictitems", "#dictkeys", "#dictvalues"):
+                    r = self.run.rec(v.items[1].oid)
+                    if r.concrete:
+                        return [k if tag == "#dictkeys" else (val if tag == "#dictvalues" else VTuple([k, val])) for k, val in r.items.values()]
+                raise E.Unsupported(f"iteration over symbolic view {tag}")
             return list(v.items)
         if isinstance(v, VRef):
             r = self.run.rec(v.oid)
@@ -752,7 +768,51 @@ class OpsMixin:
         self.comp_iter(node.generators, frame, lambda f: out.append(self.eval(node.elt, f)))
         return self.new_set(out)
 
+    def abstract_comp(self, node, frame, kind):
+        """a dict/set comprehension over a symbolic iterable: key / value expressions are evaluated for ONE arbitrary element (so that their
+        reads, ownership and call-site obligations are generated), the result is an unconstrained container of the right type"""
+        if len(node.generators) != 1:
+            return None
+        g = node.generators[0]
+        it = self.force(self.eval(g.iter, frame))
+        try:
+            self.iterate_concrete(it)
+            return None
+        except E.Unsupported:
+            pass
+        run = self.run
+        n, elem = self.iter_view(it, node, frame)
+        k = z3.Int(run.fresh_name("k!comp"))
+        tys = []
+
+        def one():
+            f2 = E.Frame(frame.relpath, frame.ci, {}, frame, frame.fname)
+            self.assign_target(g.target, elem(k), f2)
+            for c in g.ifs:
+                self.truthy(self.eval(c, f2))
+            if kind == "dict":
+                tys.append((self.type_of_value(self.eval(node.key, f2)), self.type_of_value(self.eval(node.value, f2))))
+            else:
+                tys.append((self.type_of_value(self.eval(node.elt, f2)),))
+            return True
+        self.under(z3.And(k >= 0, k < n), one, persist=False)
+        if "comprehension over a symbolic container abstracted (unconstrained result)" not in run.abstractions:
+            run.abstractions.append("comprehension over a symbolic container abstracted (unconstrained result)")
+        nm = run.fresh_name("comp")
+        if kind == "dict":
+            kt, vt = tys[0] if tys and all(tys[0]) else (("any",), ("any",))
+            if kt[0] not in ("str", "int", "enum"):
+                kt = ("str",)
+            if vt is None or vt[0] in ("obj", "list", "dict", "set", "tuple", "callback"):
+                vt = ("any",)
+            return self.fresh(("dict", kt, vt), nm)
+        et = tys[0][0] if tys and tys[0][0] else ("any",)
+        return self.fresh(("set", et if et[0] in ("str", "int", "enum") else ("any",)), nm)
+
     def e_DictComp(self, node, frame):
+        ab = self.abstract_comp(node, frame, "dict")
+        if ab is not None:
+            return ab
         sym = self.try_symbolic_comp(node, frame)
         if sym is not None:
             return sym
